@@ -19,6 +19,7 @@ import (
 	"encoding/base64"
 	"fmt"
 	"maps"
+	"strconv"
 	"strings"
 	"sync"
 
@@ -77,8 +78,10 @@ func ToCatalog(rows []any, ident string, identRight string, joinExpr sqlparser.E
 			if err != nil {
 				return nil, err
 			}
-			buffer.WriteString(fmt.Sprintf("%v", reader))
-			buffer.WriteString("-")
+			text := fmt.Sprintf("%v", reader)
+			buffer.WriteString(strconv.Itoa(len(text)))
+			buffer.WriteString(":")
+			buffer.WriteString(text)
 			mapper[mappedColumns[column]] = reader
 		}
 		hash, err := ToHash(buffer.Bytes())
